@@ -33,3 +33,4 @@ func MuUnlock(mu tryLocker, site int32)         { mu.Unlock() }
 func MuRLock(mu tryRLocker, site int32)         { mu.RLock() }
 func MuRUnlock(mu tryRLocker, site int32)       { mu.RUnlock() }
 func OnceDo(o *sync.Once, f func(), site int32) { o.Do(f) }
+func AP(s interface{}, site int32) interface{}  { return s }
